@@ -76,6 +76,10 @@ func syscStream(g *hx.Gen, id int) hx.Case {
 		o := scOp{kind: 'O', path: path, status: st, chunk: g.Chance(20), rerr: -1}
 		if cc := g.Pick(scCacheControls); cc != "" {
 			o.hdr = append(o.hdr, [2]string{"Cache-Control", cc})
+			if g.Chance(10) {
+				// a second Cache-Control LINE that forbids storing (seeded change C10-m6: a memo keyed by the first line)
+				o.hdr = append(o.hdr, [2]string{"Cache-Control", g.Pick([]string{"no-store", "private", "no-cache", "max-age=0", "s-maxage=0"})})
+			}
 		}
 		if g.Chance(50) {
 			o.hdr = append(o.hdr, [2]string{"ETag", "\"e" + hx.I(version) + "\""})
